@@ -222,11 +222,25 @@ Definition any_flush_ok (r : freport) : bool := hist_ok (r_dpc r) (r_iters r).
 Definition last_report (l : list freport) : option freport :=
   match rev l with [] => None | r :: _ => Some r end.
 
+(* The numeric clauses of the monitor are those of the theorems, whose hypothesis (fresult_ok) asks for a
+   positive total action value: a battle decided at AV 0 has no damage per cycle (x * 100 / 0 is +Inf or NaN),
+   and means / quartiles of such samples are NaN in the real code and in the model alike.  For those batches the
+   monitor keeps its structural clauses (arrival orders, a flushed report never changes) and leaves the numbers
+   to the exact correspondence (check_case), which does cover them. *)
+Definition av_positive (rs : list fresult) : bool :=
+  forallb (fun r : fresult => PrimFloat.ltb 0 (i_av r)) rs.
+
 Definition monitor_case (c : case) : bool :=
   let '(_, cyc, _, rs, sps, o) := c in
   match o with
   | HarnessPanic _ => false
   | Ok ros =>
+      if negb (av_positive rs) then
+        Nat.eqb (length ros) (length sps) &&
+        forallb (fun ro : runobs =>
+                   let '(observed, atflush, reread) := ro in
+                   is_perm_of_seq (length rs) observed && list_eqb report_eqb atflush reread) ros
+      else
       let scale := (fabs_max (map (@i_dealt float) rs), fabs_max (map (@i_taken float) rs),
                     fabs_max (map (@i_av float) rs)) in
       let finals := map (fun ro : runobs => let '(_, atflush, _) := ro in last_report atflush) ros in
